@@ -169,6 +169,8 @@ struct Builder<'a> {
     p: u128,
     q: u128,
     small: &'a [u32],
+    /// exponents beyond one LEB128 byte (>= 128) occur in this scenario
+    big_exponents: bool,
 }
 
 impl Builder<'_> {
@@ -236,6 +238,7 @@ impl Builder<'_> {
                 0 => 2,
                 1 => 3,
                 2 => rng.range(4, 17),
+                3 if self.big_exponents => rng.range(18, 400),
                 _ => 1,
             };
             v.push((pr, e));
@@ -300,7 +303,10 @@ pub fn gen_spec(rng: &mut Rng, tier: Tier) -> Spec {
     let mut small: Vec<u32> = (0..fbase.len()).map(|i| fbase.p(i)).filter(|&pr| p % pr as u128 != 0 && q % pr as u128 != 0).collect();
     small.truncate(nsmall.max(2));
     if std::env::var("VERIF_TRACE").is_ok() { eprintln!("gen: p={p} q={q} fb={} bound={} small={small:?}", fbase.len(), fbase.bound()); }
-    let b = Builder { p, q, small: &small };
+    // a quarter of the scenarios: exponents that need two LEB128 bytes (they also arise by repeated combination
+    // along chains of 15 and more double-large-prime relations)
+    let big_exponents = rng.chance(0.25);
+    let b = Builder { p, q, small: &small, big_exponents };
     // large primes: a small pool above the factor base, so that collisions are frequent
     // large primes range up to 32 bits in real sieves (packed as ULEB128: 3 to 5 bytes)
     // (the top class reaches 2^31..2^32: the encodings of such primes use the last bit of a u32)
